@@ -455,14 +455,19 @@ class CsvRule:
         return CsvRule(d['pattern'], [tuple(m) for m in d['mods']], d['merchant'], d['category'], d['subcategory'], list(d['tags']))
 
 
-def render_csv(rules, rnd=None):
+def render_csv(rules, rnd=None, short_all=False):
     buf = io.StringIO()
     w = csv.writer(buf, lineterminator='\n')
     w.writerow(['Pattern', 'Merchant', 'Category', 'Subcategory', 'Tags'])
     out = [buf.getvalue()]
     for r in rules:
         buf = io.StringIO()
-        csv.writer(buf, lineterminator='\n').writerow([r.pattern_text(), r.merchant, r.category, r.subcategory, '|'.join(r.tags)])
+        cells = [r.pattern_text(), r.merchant, r.category, r.subcategory, '|'.join(r.tags)]
+        if short_all or (rnd is not None and rnd.random() < .15):
+            # a hand-edited file: the empty cells at the END of a line are simply not there (fewer cells than the header has columns)
+            while len(cells) > 2 and cells[-1] == '':
+                cells.pop()
+        csv.writer(buf, lineterminator='\n').writerow(cells)
         out.append(buf.getvalue())
         if rnd is not None and rnd.random() < .15:
             out.append(rnd.choice(['# a comment line\n', '\n', '   \n', '# X,Y,Z,W\n']))
